@@ -57,6 +57,11 @@ NeedsData(o) ==
   CASE o.op = "length" -> cfg.len = 0
     [] o.op \in {"form", "type"} -> cfg.form = 0 /\ ~inferred
     [] o.op = "range_lazy" -> cfg.len = 0          \* with a declared length the slice is a lazier VirtualArray
+    \* purelist / minmax / branch depth: answered from the form when there is one
+    [] o.op = "depths" -> cfg.form = 0 /\ ~inferred
+    \* the depths of x[newaxis], x[...], x[a:b]: the slice is a lazier VirtualArray that inherits (and for newaxis shifts)
+    \* the depths of the form; only a range without a declared length, or an unknown form, needs the data
+    [] o.op = "slice_depths" -> (cfg.form = 0 /\ ~inferred) \/ (o.sk = "range" /\ cfg.len = 0)
     [] OTHER -> TRUE                               \* at, range (observed), tojson, num, carry, validity
 
 \* what one materialisation attempt does: [ok, held', calls']
